@@ -165,3 +165,37 @@ def wf (S : Schema) (special : List Str) : Bool :=
   enumsOk S && namesSorted (S.classes.map (·.name)) && allClasses S (clsOk S special)
 
 end Ofx.WF
+
+namespace Ofx.WF
+open Ofx Ofx.Agg
+
+def isListAt (c : Cls) (i : Nat) : Bool :=
+  match c.spec[i]? with
+  | some a => a.kind.isList
+  | none => false
+
+def emitAt (c : Cls) (j : Nat) : Bool :=
+  match c.spec[j]? with
+  | some a => !a.kind.isList && !a.kind.isUnsupported
+  | none => false
+
+def subTargetOk (S : Schema) (a : Attr) (t : Nat) : Bool :=
+  match S.cls? t with
+  | some tc => lower tc.name == a.name && !tc.name.contains '.' && S.findIdx? tc.name == some t
+  | none => false
+
+/-- the class-level facts the aggregate round-trip theorem uses, in directly decidable form
+    (`OfxProofs/Lemmas/WFBridge.lean` turns this into `Agg.ClsWF`) -/
+def roundTripOk (S : Schema) (c : Cls) : Bool :=
+  decide (namesOf c).Nodup &&
+  c.spec.all (fun a => lower (upper a.name) == a.name && !(upper a.name).contains '.') &&
+  c.spec.all (fun a =>
+    match a.kind with
+    | .sub t => subTargetOk S a t
+    | .listAgg t => subTargetOk S a t
+    | _ => true) &&
+  (List.range c.spec.length).all fun j =>
+     !emitAt c j || !((List.range j).any (isListAt c)) ||
+       (List.range c.spec.length).all (fun q => !isListAt c q || decide (q < j))
+
+end Ofx.WF
